@@ -33,6 +33,8 @@ def bounds(tier):
 EXTRA_LEAVES = [
     {"k": "RQS", "knots": 3, "interval": [1, 5]}, {"k": "RQS", "knots": 3, "interval": [-5, -1]},
     {"k": "RQS", "knots": 1, "interval": 2}, {"k": "LeakyTanh", "shape": [], "max_val": 3},
+    {"k": "RQS", "knots": 5, "interval": [2, 6]}, {"k": "RQS", "knots": 8, "interval": [2, 6]}, {"k": "RQS", "knots": 8, "interval": [-6, -2]},
+    {"k": "RQS", "knots": 8, "interval": [0.5, 4]}, {"k": "RQS", "knots": 8, "interval": 3},
     {"k": "LeakyTanh", "shape": [2], "max_val": 1}, {"k": "Flip", "shape": [2]}, {"k": "Identity", "shape": []},
     {"k": "Loc", "shape": [2]}, {"k": "TriAffine", "dim": 2, "lower": False}, {"k": "Planar", "dim": 2, "cond": None, "slope": 1.0},
     {"k": "Coupling", "dim": 2, "cond": None, "tr": "rqs"}, {"k": "BNAF", "dim": 2, "cond": 2, "depth": 2, "bd": 2},
@@ -129,6 +131,11 @@ def run_case(case):
         ii = g.info(spec)
         cls = f"{case['base']}>{g._cls(spec)}" + (f"[{spec.get('interval')}]" if spec.get("k") == "RQS" else "")
 
+        def builder_salt(lvl, sd):
+            b = g.build(spec, sd, lvl, seed + 3 * sd)
+            base = D.StandardNormal(ii.shape) if case["base"] == "normal" else D.StudentT(jnp.full(ii.shape, 3.0))
+            return D.Transformed(base, b)
+
         def builder(lvl):
             b = g.build(spec, 0, lvl, seed)
             base = D.StandardNormal(ii.shape) if case["base"] == "normal" else D.StudentT(jnp.full(ii.shape, 3.0))
@@ -147,9 +154,13 @@ def run_case(case):
         if seen[sig] <= 1:
             viols.append({"sig": sig, "msg": msg, "detail": detail})
 
-    for level in levels:
+    states = [(lv, 0) for lv in levels]
+    if "factory" not in case and (case["spec"].get("k") == "RQS" or (case["spec"].get("k") == "Invert" and case["spec"]["c"].get("k") == "RQS")):
+        # splines: the unselected branch of the interval test depends on the knot parameters, so several trained states (levels 0-3 x 3 parameter patterns) are tried
+        states = [(lv, sd) for lv in (0, 1, 2, 3) for sd in range(3 if lv else 1)]
+    for level, salt_ in states:
         try:
-            dist = builder(level)
+            dist = builder(level) if salt_ == 0 else builder_salt(level, salt_)
         except Exception as e:
             add(f"construct|{type(e).__name__}", f"{case['id']} level {level}: {type(e).__name__}: {str(e)[:200]}", {})
             continue
